@@ -179,7 +179,7 @@ def lax_ipv4(s):
     """Four dotted decimal numbers <= 255 with leading zeros allowed ("01.2.3.004"): a reg-name by the RFC 3986 grammar
     that many resolvers take for an address (RFC 3986 7.4)."""
     parts = s.split(".")
-    return len(parts) == 4 and all(p != "" and all(c in DIGIT for c in p) and int(p) <= 255 for p in parts)
+    return len(parts) == 4 and all(p != "" and all(c in DIGIT for c in p) and len(p.lstrip("0")) <= 3 and int(p.lstrip("0") or "0") <= 255 for p in parts)
 
 
 def parse_ipv6(s):
